@@ -64,7 +64,8 @@ func NewValidatorSet(validators *ConsensusValidators, delegate ...bool) (Validat
 		return ValidatorSet{}, ErrNoValidators()
 	}
 	// calculate the minimum power for a two-thirds majority (2f+1)
-	minPowerFor23Maj := (2*totalPower)/3 + 1
+	// floor(2T/3)+1 without forming 2T, which wraps uint64 once T >= 2^63 (T = 3q+r: floor(2T/3) = 2q + floor(2r/3))
+	minPowerFor23Maj := (totalPower/3)*2 + ((totalPower%3)*2)/3 + 1
 	var multiPublicKey crypto.MultiPublicKeyI
 	// for validators, create a composite multi-public key out of the public
 	// keys (in curve point format)
